@@ -376,7 +376,7 @@ func (g *G) PacketOut() (util.Message, *spec.Node) {
 		g.Label("late_growth_in_packet_out")
 	}
 	data := g.Bytes("data", dl)
-	p.SetData(cp(data))
+	p.SetData(g.Carve(data))
 	n.With(spec.B("data", data))
 	if dl > 0 {
 		g.Label("packet_out_payload")
